@@ -80,6 +80,7 @@ type CallSiteSpec struct {
 	Tag    string
 	Clause *Clause
 	IsUse  bool // "callsite f use lemma(args)": assume a lemma instance at the call instead of asserting
+	IsGuard bool // "callsite return#k guard [tag] e": like assert, but the named return need not be able to succeed ("if it reports success, then e")
 	IsNever bool // "callsite f never [tag]": no reachable call of f (assert false at each, no cover; none at all is fine)
 	IsReach bool // "callsite f reach [tag] e": the call must be reachable in a state satisfying e (a must-be-satisfiable cover)
 }
@@ -538,7 +539,7 @@ func loadContracts(path string) (*PkgContracts, error) {
 						curF.CallSites = append(curF.CallSites, &CallSiteSpec{Callee: f[0], Tag: c.Tag, Clause: c, IsNever: true})
 						break
 					}
-					if len(f) < 3 || f[1] != "assert" && f[1] != "use" && f[1] != "reach" {
+					if len(f) < 3 || f[1] != "assert" && f[1] != "use" && f[1] != "reach" && f[1] != "guard" {
 						return nil, fail(l, "callsite: expected 'callsite <callee> assert <expr>' or 'callsite <callee> use lemma(args)'")
 					}
 					body := strings.TrimSpace(strings.TrimPrefix(strings.TrimSpace(rest[len(f[0]):]), f[1]))
@@ -546,7 +547,7 @@ func loadContracts(path string) (*PkgContracts, error) {
 					if err != nil {
 						return nil, err
 					}
-					curF.CallSites = append(curF.CallSites, &CallSiteSpec{Callee: f[0], Tag: c.Tag, Clause: c, IsUse: f[1] == "use", IsReach: f[1] == "reach"})
+					curF.CallSites = append(curF.CallSites, &CallSiteSpec{Callee: f[0], Tag: c.Tag, Clause: c, IsUse: f[1] == "use", IsReach: f[1] == "reach", IsGuard: f[1] == "guard"})
 				case "nooverflow":
 					curF.NoOverflow = true
 				case "pure":
